@@ -183,7 +183,7 @@ def ty(rng):
 
 def stmt_name(rng, quoted=0.06):
     if rng.random() < quoted:
-        return "`" + rng.choice(["a b", "let", "my-name", "true", "x$y"] + ([] if CLEAN[0] else ["*"])) + "`"
+        return "`" + rng.choice(["a b", "let", "my-name", "true", "x$y", "*"]) + "`"
     return rng.choice(["x", "y", "my_var", "f1", "é", "rel", "long_variable_name_number_one"])
 
 
@@ -204,7 +204,7 @@ def syn_call(rng, d):
         return "%s %s" % (rng.choice(["from", "f", "std.select", "m.g"]), " ".join(G.wrap(gexpr(rng, d - 1)) for _ in range(rng.randint(1, 3))))
     if k < 0.8:
         return "(" + " | ".join("%s %s" % (rng.choice(["from", "filter", "select", "take", "f"]), G.wrap(gexpr(rng, d - 1))) for _ in range(rng.randint(2, 4))) + ")"
-    return G.src(G.gen_func(rng, d, lambda dd: G.gen_expr(rng, dd, {"clean": CLEAN[0], "nofunc_top": True}), CLEAN[0]))
+    return G.src(G.gen_func(rng, d, lambda dd: G.gen_expr(rng, dd, {"clean": CLEAN[0]}), CLEAN[0]))
 
 
 def statement(rng, d, depth=0):
@@ -213,7 +213,7 @@ def statement(rng, d, depth=0):
     if rng.random() < 0.12 and (not CLEAN[0] or k < 0.68):
         pre += "#! %s\n" % rng.choice(["doc comment", "It's documented", "two", ""])
     if rng.random() < 0.12:
-        pre += "@%s\n" % rng.choice(["{binding_strength = 11}", "deprecated", "{a = 1, b = \"x\"}", "{coalesce = \"0\"}"] + ([] if CLEAN[0] else ["(f x)", "(a + b)"]))
+        pre += "@%s\n" % rng.choice(["{binding_strength = 11}", "deprecated", "{a = 1, b = \"x\"}", "{coalesce = \"0\"}", "(f x)", "(a + b)", "(func x -> x)", "(al = a)"])
     if k < 0.40:
         nm = stmt_name(rng)
         j = rng.random()
@@ -227,7 +227,7 @@ def statement(rng, d, depth=0):
     if k < 0.50:
         return pre + "type %s = %s" % (stmt_name(rng, 0.03), ty(rng))
     if k < 0.58:
-        return pre + "import %s%s" % (rng.choice(["", "", "al = ", "`my al` = ", "`let` = ", "`import` = ", "`a$b` = "] + ([] if CLEAN[0] else ["`*` = "])), rng.choice(["a.b", "std.math", "x", "`a b`.c", "m.`type`"]))
+        return pre + "import %s%s" % (rng.choice(["", "", "al = ", "`my al` = ", "`let` = ", "`import` = ", "`a$b` = ", "`*` = "]), rng.choice(["a.b", "std.math", "x", "`a b`.c", "m.`type`"]))
     if k < 0.68 and depth < 2:
         inner = [statement(rng, max(d - 1, 1), depth + 1) for _ in range(rng.randint(0, 3))]
         inner = [s for s in inner if not s.lstrip("#!@ \n").startswith("from")]
